@@ -27,6 +27,7 @@ impl Check for C03 {
             "probe.deep-nesting-run",
             "probe.deep-nesting>200",
             "probe.fatal-error",
+            "probe.giant-block>=65536-children",
             "probe.long-run",
             "probe.long-run-of-millions-of-steps",
             "probe.long-run-output>64KiB",
@@ -61,6 +62,10 @@ impl Check for C03 {
         if run == 7 {
             // one very long evaluation per invocation (millions of steps = a sizeable fraction of a second)
             return vmgen::gen_very_long(g, if tier == Tier::Quick { 6_000_000 } else { 20_000_000 });
+        }
+        if run % 30_000 == 17 {
+            // one giant block (>= 65 536 children): limits and capacities at sizes beyond 16 bits
+            return vmgen::gen_giant(g);
         }
         if run % 700 == 349 {
             // a long execution (1000..=30000 steps) of a self-re-creating loop
